@@ -2,6 +2,7 @@ import Pyx12Verif.Props.CtxDoc
 import Pyx12Verif.Props.CtxDocPartition
 import Pyx12Verif.Props.CtxDocDelim
 import Pyx12Verif.Props.CtxDocExample2
+import Pyx12Verif.Props.CtxDocFull
 #print axioms Pyx12Verif.Doc.ctxDoc_total
 #print axioms Pyx12Verif.Doc.ctxDoc_total_none
 #print axioms Pyx12Verif.Doc.ctxDoc_total_sharp
@@ -16,3 +17,16 @@ import Pyx12Verif.Props.CtxDocExample2
 #print axioms Pyx12Verif.Doc.ctxDoc_delimiter_independent_views
 #print axioms Pyx12Verif.Doc.Ex.good_partition
 #print axioms Pyx12Verif.Doc.Ex.good_ctx_same_sub
+#print axioms Pyx12Verif.Ctx.treeStep_modeA
+#print axioms Pyx12Verif.Ctx.treeStep_modeB
+#print axioms Pyx12Verif.CtxWalk.regular_of_facts
+#print axioms Pyx12Verif.CtxWalk.walk_found_matches
+#print axioms Pyx12Verif.Doc.cStepSeg_post
+#print axioms Pyx12Verif.Doc.cRunSegs_safe
+#print axioms Pyx12Verif.Doc.lid_of_bool
+#print axioms Pyx12Verif.Doc.ctxDoc_tree_exits_unreachable
+#print axioms Pyx12Verif.Doc.ctxDoc_total_full_lid
+#print axioms Pyx12Verif.Doc.ctxDoc_total_full_sites
+#print axioms Pyx12Verif.Doc.ctxDoc_total_full_bool
+#print axioms Pyx12Verif.Doc.ctxDoc_total_full_goodPart
+#print axioms Pyx12Verif.Doc.ctxDoc_total_full_false
